@@ -67,6 +67,25 @@ Theorem C13_exact : forall g u v ids p, StronglySorted Z.lt ids ->
 Proof. exact paths_exact. Qed.
 Print Assumptions C13_exact.
 
+(** the same, END TO END: for a root present at start and a proper window, the list returned by
+    time_respecting_paths contains a hop sequence (whose first hop is not a self-loop of the root) if and only if it
+    is a valid path over the ids of the window [start, end], passes the ping-pong filter and ends in v.
+    ([NoDup (map fst (g_snaps g))]: one counter per instant, true of every reachable graph, SnapInv.) *)
+Theorem C13_exact_end_to_end : forall g u v s e l p,
+  NoDup (map fst (g_snaps g)) -> has_node g u s = true ->
+  time_respecting_paths g u v s e = PathsOk l ->
+  (match p with (_, y, _) :: _ => y <> u | [] => True end) ->
+  exists ids, window_ids g s e = Some ids /\
+   (In p l <-> valid_path g ids u p /\ keep_path p = true /\
+               (forall v', v = Some v' -> exists a t, last p (0,0,0) = (a, v', t))).
+Proof.
+  intros g u v s e l p Hnd Hn H Hp. unfold time_respecting_paths in H. rewrite Hn in H. cbn [negb] in H.
+  unfold temporal_dag in H. destruct (window_ids g s e) as [ids|] eqn:Hw; [|discriminate].
+  inversion H; subst. exists ids. split; [reflexivity|].
+  apply (paths_exact g u v ids p); [eapply window_ids_sorted; eauto|exact Hp].
+Qed.
+Print Assumptions C13_exact_end_to_end.
+
 (** finding K-C13-1: a path whose first hop is a self-loop of the root is missed *)
 Theorem C13_complete_refuted : exists g u l,
   time_respecting_paths g u None None None = PathsOk l /\
